@@ -3,7 +3,7 @@
 # usage: tools/trymutant.sh <worktree> <property>...   (prints one line per check)
 wt=$1; shift
 for p in "$@"; do
-  out=$(VERIF_REPO=$wt timeout 1800 /verif/bin/check $p 2>&1); code=$?
+  out=$(VERIF_REPO=$wt timeout 1800 ${CHECK_BIN:-/verif/bin/check} $p 2>&1); code=$?
   echo "$p exit=$code $(echo "$out" | grep -c '^VIOLATION') violation line(s); $(echo "$out" | tail -1)"
   echo "$out" | grep -A1 '^VIOLATION' | grep '^  ' | head -2 | cut -c1-260
 done
